@@ -395,7 +395,7 @@ func init() {
 				}
 				lines = append(lines, fmt.Sprintf("mint %s %d %d %s", p, ts, base, genMaMutation(r, len(nodes))))
 			}
-			return lines
+			return clkWrap(r, lines, map[string]int{"mint": 2})
 		},
 		Exec: execMintAccept,
 	})
@@ -410,8 +410,11 @@ func sortInts(a []int) {
 }
 
 func execMintAccept(state *State, line string) Result {
-	t := strings.Fields(line)
+	c, t := parseClk(strings.Fields(line))
 	res := Result{Tags: []string{t[0]}}
+	if c.on {
+		res.Tags = append(res.Tags, fmt.Sprintf("clk:own%d-ts0%d", b2i(c.own), b2i(c.ts0)))
+	}
 	fail := func(key, desc string) {
 		if res.PropKey == "" {
 			res.PropKey, res.PropDesc = "C25:"+key, desc
@@ -450,15 +453,17 @@ func execMintAccept(state *State, line string) Result {
 			st.total = new(big.Int)
 			return "ok"
 		case "mint", "mintnew":
-			var ts uint64
+			var tsTok uint64
 			if t[0] == "mint" {
-				ts = u64(t[2])
+				tsTok = u64(t[2])
 			} else {
-				ts = u64(t[1])
+				tsTok = u64(t[1])
 			}
-			if ts == 0 {
-				panic("harness: timestamp 0 is the clock substitution")
+			if tsTok == 0 {
+				panic("harness: timestamp 0 is written as a clk op")
 			}
+			// the time the validator is specified to use, and the timestamp the snapshot carries
+			ts, sts := c.eff(tsTok), c.snapTs(tsTok)
 			st.prime(ts)
 			thr := st.node.ConsensusThreshold(ts, false)
 			// proposer
@@ -477,7 +482,11 @@ func execMintAccept(state *State, line string) Result {
 			if canon != nil {
 				canonRest = maRest(canon)
 			}
-			snap := &common.Snapshot{Version: common.SnapshotVersionCommonEncoding, NodeId: proposer, Timestamp: ts}
+			snap := &common.Snapshot{Version: common.SnapshotVersionCommonEncoding, NodeId: proposer, Timestamp: sts}
+			st.node.IdForNetwork = fakeHash("the-validating-node")
+			if c.on && c.own {
+				st.node.IdForNetwork = proposer
+			}
 			if t[0] == "mintnew" {
 				res.LeanIn = fmt.Sprintf("mintnew %s %d %d %s", proposer, ts, thr, canonRest)
 				if buildPanics {
@@ -523,11 +532,32 @@ func execMintAccept(state *State, line string) Result {
 				cand = maMutate(cand, mut)
 				res.Tags = append(res.Tags, "mint:cand-"+mut[0])
 			}
-			res.LeanIn = fmt.Sprintf("mint %s %d %d %s %s", proposer, ts, thr, canonRest, maFields(cand))
+			res.LeanIn = c.prefix() + fmt.Sprintf("mint %s %d %d %s %s", proposer, tsTok, thr, canonRest, maFields(cand))
 			_ = electPanics
 			snap.AddTransaction(cand.PayloadHash())
-			if err := st.node.VerifValidateMintSnapshot(snap, cand); err != nil {
-				return "reject"
+			once := func() string {
+				var err error
+				_, pn, _ := Catch(func() string { err = st.node.VerifValidateMintSnapshot(snap, cand); return "" })
+				if pn {
+					return "panic"
+				}
+				if err != nil {
+					return "reject"
+				}
+				return "accept"
+			}
+			var d string
+			withClock(c.on, c.clock, func() { d = once() })
+			if c.on && !(c.own && c.ts0) { // a timestamped (or foreign) snapshot: the local clock must not matter
+				var d2 string
+				withClock(true, c.otherClock(), func() { d2 = once() })
+				if d2 != d {
+					fail("decision-depends-on-local-clock", fmt.Sprintf("the same timestamped mint snapshot is decided %s with the local clock at %d and %s at %d",
+						d, c.clock, d2, c.otherClock()))
+				}
+			}
+			if d != "accept" {
+				return d
 			}
 			maCheckAccepted(st, proposer, ts, cand, lb, la, fail)
 			res.Tags = append(res.Tags, "mint:accept", "mint:accept-"+mut[0])
